@@ -259,7 +259,7 @@ fn check_lines(real: &Sec, nl: bool, entries: &[(String, String, String)], marke
 }
 
 /// `tok` occurs as a whole flag / name (not inside a longer flag or word)
-fn has_token(text: &str, tok: &str) -> bool {
+pub(crate) fn has_token(text: &str, tok: &str) -> bool {
     let tb = text.as_bytes();
     let mut from = 0;
     while let Some(p) = text[from..].find(tok) {
